@@ -7,8 +7,12 @@ open Compio Compio.Timer
 
 namespace C09
 
+/-- Wheel-level lines use the harness' logical grid: deadline `d` is the real instant `B + d*G`, and
+while the logical time is `t` the real clock is strictly inside the cell `(B + t*G, B + (t+1)*G)`.
+In the model's units (half cells) deadline `d` is `2*d` and "now" is `2*t + 1`, so that, as in the
+real run, `now` never coincides with a deadline. -/
 structure St where
-  world : World := ⟨0, Wheel.new⟩
+  world : World := ⟨1, Wheel.new⟩
   handles : Array Key := #[]
 
 def nWakers : Nat := 4
@@ -17,7 +21,7 @@ def showEntry (e : Entry) : String :=
   let w := match e.2 with
     | none => "-"
     | some i => s!"w{i}"
-  s!"{e.1.deadline}:{e.1.gen}:{w}"
+  s!"{e.1.deadline / 2}:{e.1.gen}:{w}"
 
 def joinOr (sep : String) (l : List String) : String := if l.isEmpty then "." else sep.intercalate l
 
@@ -37,11 +41,11 @@ def wheelOp (st : St) (ws : List String) : St × String :=
   match ws with
   | ["wheel", t0] =>
     match t0.toNat? with
-    | some t0 => ({ world := ⟨t0, Wheel.new⟩, handles := #[] }, "ok")
+    | some t0 => ({ world := ⟨2 * t0 + 1, Wheel.new⟩, handles := #[] }, "ok")
     | none => (st, "bad-op")
   | ["adv", n] =>
     match n.toNat? with
-    | some n => let (s', _) := step s (.advance n); ({ st with world := s' }, s!"t={s'.now}")
+    | some n => let (s', _) := step s (.advance (2 * n)); ({ st with world := s' }, s!"t={s'.now / 2}")
     | none => (st, "bad-op")
   | ["setgen", v] =>
     -- test-only: overwrite the generation counter (the harness pokes the private field)
@@ -51,7 +55,7 @@ def wheelOp (st : St) (ws : List String) : St × String :=
   | ["ins", d] =>
     match d.toNat? with
     | some d =>
-      match step s (.insert d) with
+      match step s (.insert (2 * d)) with
       | (s', .ins r) =>
         let hs := match r with
           | .some k => st.handles.push k
@@ -81,7 +85,7 @@ def wheelOp (st : St) (ws : List String) : St × String :=
   | ["mt"] =>
     match minTimeout s.wheel s.now with
     | none => (st, "mt none")
-    | some t => (st, s!"mt {t}")
+    | some t => (st, s!"mt {(t + 1) / 2}")      -- the harness reports ceil(timeout / G)
   | ["done", h] =>
     match h.toNat? with
     | some h =>
